@@ -48,6 +48,68 @@ def run(rep, repo, tier):
                 check_spread(rep, wf, cls)
             check_gating(rep, wf, cls, twopl)
     check_sampling(rep, repo)
+    check_type_dispatch(rep, repo)
+
+
+WRITER_OF_TYPE = {'ha': 'Generator_ha_sm_hr', 'sm': 'Generator_ha_sm_hr', 'hr': 'Generator_ha_sm_hr', 'spa': 'Generator_spa'}
+
+
+def check_type_dispatch(rep, repo):
+    """R3: for each of the four problem types Generator.__init__ hands the parsed arguments to generate_instances of the
+    writer of that type, exactly once (conditions evaluated with args.matchingproblem := the type's name)"""
+    f = repo.method('Generator', '__init__', required=False)
+    if f is None:
+        rep.inconclusive('C08.R3', '-', 'Generator.__init__ is the entry point of a run', got='not found')
+        return
+    it = Interp(repo)
+    it.opaque = lambda g: g.name in ('generate_instances', 'parse')
+    try:
+        effs, _ = it.run(f, {p_: S(p_) for p_ in f.params if p_ != 'self'})
+    except Unknown as u:
+        rep.inconclusive('C08.R3', f.where, 'Generator.__init__ is inside the interpreted fragment', got=str(u))
+        return
+    parsed = [e for e, _ in iter_effects(effs) if e.kind in ('call', 'callo') and getattr(e.target, 'name', '') == 'parse']
+    calls = [(e, ctx) for e, ctx in iter_effects(effs) if e.kind in ('call', 'callo') and getattr(e.target, 'name', '') == 'generate_instances']
+    unresolved = []
+    seen = set()
+    for e, _ in iter_effects(effs):
+        for v_ in e.__dict__.values():
+            if isinstance(v_, tuple) and v_ and isinstance(v_[0], str):
+                unresolved += [show(t)[:80] for t in walk_unique(v_, seen) if t[0] == 'call' and t[1][0] == 'attr' and t[1][2] == 'generate_instances'
+                               and not any(getattr(c_, 'ret', None) == t for c_, _ in calls)]
+    if unresolved:
+        rep.inconclusive('C08.R3', f.where, 'the receiver of every generate_instances call is resolved to one writer class', got=unresolved[:2])
+        return
+    for T, cls in sorted(WRITER_OF_TYPE.items()):
+        def ev(t):
+            if t[0] == 'attr' and t[2] == 'matchingproblem':
+                return C(T)
+            return simp(t)
+        run_ = []
+        unknown = []
+        for e, ctx in calls:
+            live = True
+            for c_, br in ctx:
+                if c_.kind == 'if':
+                    v = subst(c_.cond, ev)
+                    if v not in (TRUE, FALSE):
+                        unknown.append(show(v)[:80])
+                    elif (v == TRUE) != br:
+                        live = False
+                elif c_.kind in ('for', 'while'):
+                    unknown.append('inside a loop')
+            if live:
+                run_.append(e)
+        if unknown:
+            rep.inconclusive('C08.R3', f.where, 'the dispatch on the problem type is decided by args.matchingproblem alone (type %s)' % T, got=unknown[:2])
+            continue
+        ok = len(run_) == 1 and getattr(run_[0].target, 'cls', None) == cls
+        rep.check(ok, 'C08.R3', f.where, 'problem type %s: the instances are written by %s.generate_instances, called once' % (T, cls),
+                  got=[getattr(e.target, 'cls', '?') for e in run_] or 'no writer is called', want=cls, construct='dispatch of problem type %s' % T)
+        if ok and parsed:
+            arg_ok = len(run_[0].args) == 1 and (run_[0].args[0] == parsed[0].ret or run_[0].args[0] == A(S('self'), 'args'))
+            rep.check(arg_ok, 'C08.R3', f.where, 'problem type %s: the writer receives the parsed arguments' % T, got=[show(a)[:60] for a in run_[0].args], want='the value returned by parse()',
+                      construct='writer arguments for %s' % T)
 
 
 # ---- R1 -------------------------------------------------------------------------------------------------------
@@ -248,8 +310,69 @@ def check_files(rep, wf, cls):
     rep.check(ok_path, 'C08.R3', w, 'file i is <outputdirectory>/<i>.txt', got=show(path)[:100], want="outputdirectory + '/' + str(i) + '.txt'", construct='%s file name %s' % (cls, show(path)[:60]), loc=e.loc)
     in_loop = any(c is fors[0] for c, _ in ctx) if fors else False
     rep.check(in_loop, 'C08.R3', w, 'the file is opened once per instance', got='inside the instance loop: %s' % in_loop, construct='%s open outside loop' % cls)
+    check_directory(rep, wf, cls, e)
     ok_w = any(len(wt[2]) == 1 and wt[2][0] == wf.call.ret for wt, _, _ in writes)
     rep.check(ok_w, 'C08.R3', w, 'exactly the text returned by create_instance is written', got=[show(wt[2][0])[:40] for wt, _, _ in writes], construct='%s written text' % cls)
+
+
+def check_directory(rep, wf, cls, open_eff):
+    """the output directory may not exist yet (it is an argument): it is created, when absent, in front of the first open()"""
+    w = wf.gi.where
+    D = A(ARGS, 'outputdirectory')
+    order = [e for e, _ in iter_effects(wf.effs)]
+    made = []
+    for e, ctx in iter_effects(wf.effs):
+        t = getattr(e, 'term', None) if e.kind == 'expr' else None
+        if not (isinstance(t, tuple) and t[0] == 'call'):
+            continue
+        plain = show(t[1]) in ('os.makedirs', 'os.mkdir', 'makedirs', 'mkdir') and t[2] and t[2][0] == D
+        viapath = t[1][0] == 'attr' and t[1][2] == 'mkdir' and t[1][1][0] == 'call' and show(t[1][1][1]).split('.')[-1] == 'Path' and list(t[1][1][2]) == [D]
+        if not (plain or viapath):
+            continue
+        conds = [(c_.cond, br) for c_, br in ctx if c_.kind == 'if']
+        exist_ok = dict(t[3]).get('exist_ok') == TRUE if len(t) > 3 else False
+        def absent_test(c_, br):
+            neg = not br
+            while c_[0] == 'not':
+                c_, neg = c_[1], not neg
+            return neg and c_[0] == 'call' and show(c_[1]) in ('os.path.exists', 'os.path.isdir', 'exists', 'isdir') and list(c_[2]) == [D]
+        guarded = len(conds) == 1 and absent_test(*conds[0])
+        made.append((e, guarded or (not conds and exist_ok), conds, exist_ok))
+    if not made:
+        # anything else that is handed the directory (pathlib, a helper, a try block) may create it: not judged
+        other = []
+        seen = set()
+        SKIP = ('open', 'exists', 'isdir', 'join', 'str', 'format')
+        def outside(t):
+            if t == D:
+                return True
+            if t[0] == 'call' and show(t[1]).split('.')[-1] in SKIP:
+                return False
+            def kids(x):
+                for y in (x[1:] if x and isinstance(x[0], str) else x):
+                    if isinstance(y, tuple):
+                        if y and isinstance(y[0], str):
+                            yield y
+                        else:
+                            yield from kids(y)
+            return any(outside(c_) for c_ in kids(t))
+        for e, _ in iter_effects(wf.effs):
+            for v_ in e.__dict__.values():
+                if isinstance(v_, tuple) and v_ and isinstance(v_[0], str):
+                    for t in walk_unique(v_, seen):
+                        if t[0] == 'call' and outside(t):
+                            other.append(show(t)[:80])
+        if other:
+            rep.inconclusive('C08.R3', w, 'the call that creates the output directory is a recognised one (os.makedirs / os.mkdir)', got=other[:3])
+            return
+        rep.fail('C08.R3', w, 'the output directory is created when it does not exist yet, before the first file is opened', got='no os.makedirs(args.outputdirectory) on the path to open()',
+                 want='if not os.path.exists(d): os.makedirs(d)', construct='%s output directory never created' % cls, loc=open_eff.loc)
+        return
+    e, ok, conds, exist_ok = made[0]
+    before = order.index(e) < order.index(open_eff) if (e in order and open_eff in order) else True
+    rep.check(ok and before, 'C08.R3', w, 'the output directory is created exactly when it is absent, before the first file is opened',
+              got='makedirs under %s%s%s' % ([('' if br else 'not ') + show(c_)[:60] for c_, br in conds] or 'no condition', ', exist_ok' if exist_ok else '', '' if before else ', after open()'),
+              want='if not os.path.exists(d): os.makedirs(d)   or   os.makedirs(d, exist_ok=True)', construct='%s output directory creation' % cls, loc=e.loc)
 
 
 # ---- R4 ----------------------------------------------------------------------------------------------------------------
